@@ -51,6 +51,7 @@ RT_ASSUME = COMMON_ASSUME + [
 ]
 
 FOCUS_OPS = r"noteOn\(0,6[02],100|noteOn\(0,41|noteOff\(0,(60|62|41|40)\)|cc\(0,64,|cc\(0,66,|patch\(0,[01]\)|generate\(40"
+VARIATION_OPS = r"noteOn\(0,6[02],100|noteOff\(0,60\)|cc\(0,0,[01]\)|removeBank|openBankData\(same|patch\(0,1\)|generate\(40"
 FOCUS_OPS_C03 = r"noteOn\(0,6[02],100|noteOn\(0,41|noteOff\(0,(60|62|41|40)\)|cc\(0,64,|patch\(0,[01]\)|generate\((40|700)|setAutoArpeggio\(1"
 PROPS["C04"] = dict(
     level="model_checking", engine="mcx", title="voice-allocation bookkeeping stays consistent",
@@ -65,6 +66,9 @@ PROPS["C04"] = dict(
             ["--prop", "C04", "--config", "1", "--seq", "1", "--starts", "fresh,song,busy5,nearfull chips=2", "--depth", "4"]),
         Leg("asan", RT_SRC, "asan", ["--prop", "C04", "--config", "1", "--seq", "1", "--starts", "fresh,song,busy5", "--depth", "2"],
             ["--prop", "C04", "--config", "1", "--seq", "1", "--starts", "fresh,song,busy5", "--depth", "3"]),
+        # variation bank (MSB 1) selected, played, removed, played again (and reloaded / deselected in between): a note's instrument must always be an entry of a bank that is loaded now
+        Leg("variation", RT_SRC, "fast", ["--prop", "C04", "--config", "1", "--starts", "fresh,busy5", "--only-ops", VARIATION_OPS, "--depth", "6"],
+            ["--prop", "C04", "--config", "1", "--starts", "fresh,busy5", "--only-ops", VARIATION_OPS, "--depth", "8"]),
         # a full chip (six key-down notes of one timbre) with and without auto-arpeggio: evictions and evacuations happen on the first note-on
         Leg("fullchip", RT_SRC, "fast", ["--prop", "C04", "--starts", "busy6same arp=1,busy6same", "--depth", "4"], ["--prop", "C04", "--starts", "busy6same arp=1,busy6same,busy6same arp=1 chips=2", "--depth", "5"]),
         # focused alphabet (14 operations: two keys + a third note of the chip's timbre, releases of held keys, both pedals, two timbres, time) from pedal-down full-chip states: deeper histories
